@@ -46,7 +46,7 @@ class C12(Prop):
     rule = ('shape grammar: unit/tuple/named structs and enums with 0-5 variants mixing kinds, 0-4 fields from {u8, &\'a str, T, '
             '[u8; N], Option<T>, ()}, lifetime / type / const parameters (const with default), where-clauses, ?Sized tail parameter (inline or in the where-clause, '
             'after other parameters) with an unsized last field, raw identifiers, repr(C) / non_exhaustive / doc attributes; supertrait-closed trait sets from '
-            '{Clone, Debug, Default, PartialEq, Eq, PartialOrd, Ord, Hash}; both entry points; compiled next to a twin carrying the '
+            '{Clone, Debug, Default, PartialEq, Eq, PartialOrd, Ord, Hash}; both entry points, the trait list in one attribute or stacked over two or three; compiled next to a twin carrying the '
             'standard derives; clone / {:?} / {:#?} / default / == / partial_cmp / cmp compared on all values / ordered pairs, '
             'hash feeds of ==-equal values compared; non-trivial = at least one field or two variants')
 
@@ -144,10 +144,20 @@ class C12(Prop):
                 kw = '(struct ('
             mode = 'attr' if k % 2 else 'derive'
             tl = [(t, None) for t in traits]
-            req = sx.inv_attr(sx.dx(tl), it) if mode == 'attr' else sx.inv_derive(
-                kw + sx.a_derive_ex(sx.dx(tl)) + ' ' + it[len(kw):])
+            # the trait list written as one attribute or stacked over several, the way `#[derive(..)]` lines are stacked
+            stacked = len(tl) >= 2 and k % 3 == 0
+            if stacked:
+                cut = 1 + rng.randrange(len(tl) - 1)
+                lists = [tl[:cut], tl[cut:]] if len(tl) < 3 or rng.random() < 0.5 else [tl[:1], tl[1:cut + 1], tl[cut + 1:]]
+                lists = [l for l in lists if l]
+            else:
+                lists = [tl]
+            rest = ' '.join(sx.a_derive_ex(sx.dx(l)) for l in lists[1:])
+            it2 = (kw + rest + ' ' + it[len(kw):]) if rest else it
+            req = sx.inv_attr(sx.dx(lists[0]), it2) if mode == 'attr' else sx.inv_derive(
+                kw + sx.a_derive_ex(sx.dx(lists[0])) + ' ' + it2[len(kw):])
             feats = ['enum%d' % nvar if is_enum else 'struct', mode] + ['tr-' + t for t in traits] + \
-                    (['unsized-tail', 'unsized-where' if u_where else 'unsized-inline'] if unsized else []) + (['raw'] if raw else []) + ['gen-' + x for x in sorted(needs)] + \
+                    (['unsized-tail', 'unsized-where' if u_where else 'unsized-inline'] if unsized else []) + (['raw'] if raw else []) + (['stacked-lists'] if stacked else []) + ['gen-' + x for x in sorted(needs)] + \
                     ['%s%d' % (kd, len(fl)) for kd, fl in variants] + attrs_r
             out.append((req, dict(features=tuple(sorted(set(feats))), enum=is_enum, variants=variants, traits=traits, dv=dv,
                                   decl_g=decl_g, inst=inst, where_r=where_r, attrs_r=attrs_r, names=names, raw=raw,
